@@ -24,12 +24,75 @@ impl AsRef<[u8]> for ArcBytes {
 }
 
 /// the full query battery on an opened FST
+/// Enumerate the file through the low-level node interface (Fst::root / Fst::node / Node::transitions / transition(i) /
+/// transition_addr(i) / find_input / is_final / final_output): depth-first in transition order, outputs summed along the path.
+/// The accessors of one node must agree with each other; the enumeration must equal the content.
+fn node_walk<D: AsRef<[u8]>>(f: &Fst<D>, limit: usize) -> Result<Kv, String> {
+    let mut out: Kv = vec![];
+    // stack of (node address, next transition index, output accumulated before this node)
+    let mut stack: Vec<(usize, usize, u64)> = vec![(f.root().addr(), 0, 0)];
+    let mut key: Vec<u8> = vec![];
+    let mut checked: std::collections::HashSet<usize> = Default::default();
+    if f.root().is_final() {
+        out.push((vec![], f.root().final_output().value()));
+    }
+    while let Some(&(addr, i, acc)) = stack.last() {
+        let node = f.node(addr);
+        if i == 0 && checked.insert(addr) {
+            let ts: Vec<fst::raw::Transition> = node.transitions().collect();
+            if ts.len() != node.len() || node.is_empty() != ts.is_empty() {
+                return Err(format!("node {}: transitions() yields {} items, len() = {}, is_empty() = {}", addr, ts.len(), node.len(), node.is_empty()));
+            }
+            for (j, t) in ts.iter().enumerate() {
+                let t2 = node.transition(j);
+                if t2.inp != t.inp || t2.out != t.out || t2.addr != t.addr || node.transition_addr(j) != t.addr {
+                    return Err(format!("node {}: transition({}) / transition_addr({}) disagree with transitions()", addr, j, j));
+                }
+                if j > 0 && ts[j - 1].inp >= t.inp {
+                    return Err(format!("node {}: transitions are not in ascending input order", addr));
+                }
+            }
+            for b in 0..=255u8 {
+                let want = ts.iter().position(|t| t.inp == b);
+                if node.find_input(b) != want {
+                    return Err(format!("node {} ({} transitions): find_input({:#04x}) = {:?}, transitions() says {:?}", addr, ts.len(), b, node.find_input(b), want));
+                }
+            }
+        }
+        if i >= node.len() {
+            stack.pop();
+            key.pop();
+            continue;
+        }
+        stack.last_mut().unwrap().1 += 1;
+        let t = node.transition(i);
+        key.push(t.inp);
+        let acc2 = acc.wrapping_add(t.out.value());
+        let child = f.node(t.addr);
+        if child.is_final() {
+            out.push((key.clone(), acc2.wrapping_add(child.final_output().value())));
+            if out.len() > limit {
+                return Err(format!("node walk yields more than {} keys", limit));
+            }
+        }
+        stack.push((t.addr, 0, acc2));
+    }
+    Ok(out)
+}
+
 fn battery<D: AsRef<[u8]>>(f: &Fst<D>, kv: &Kv, version: u64, rng: &mut Rng) -> Result<(), String> {
     if f.len() != kv.len() || f.is_empty() != kv.is_empty() {
         return Err(format!("len() = {} / is_empty() = {} for {} keys", f.len(), f.is_empty(), kv.len()));
     }
     if &f.stream().into_byte_vec() != kv {
         return Err("stream() differs from the file's content".into());
+    }
+    // the low-level node interface
+    if kv.len() <= 5000 {
+        let walked = node_walk(f, kv.len() + 1).map_err(|e| format!("node interface: {}", e))?;
+        if &walked != kv {
+            return Err("enumeration through root()/node()/transitions() differs from the file's content".into());
+        }
     }
     // verify
     match (version, f.verify()) {
@@ -423,7 +486,7 @@ pub fn run(ctx: &Ctx) -> i32 {
         ev,
         Spec {
             level: "exploration",
-            rule: "one evaluation = one file opened in one container and put through the query battery (len/is_empty, full stream, verify() = Ok for v3 / ChecksumMissing for v1-2, lookups of keys/prefixes/extensions and every single byte from the root, 4 random ranges, Subsequence and DFA searches) against the model the file encodes; files: ~8000 (thorough 40000) models x versions {1,2,3} x 2 output distributions and node-form policies produced by the harness' independent reference encoder (self-checked by the independent decoder; includes empty map, only-empty-key, files of 32..35 bytes, nodes with >32 transitions with and without index, dense product sets with far more keys than bytes), cross-version union/intersection/difference together with the crate's own output, 40 committed golden files (v1/v2/v3 reference encodings and v3 crate output with sidecar content), corpora in all versions; containers rotate over Vec, &[u8], Cow::Borrowed/Owned, Box<[u8]>, Arc newtype, memory map, map_data, Map/Set wrappers; plus a header sweep: version field in {0,1,2,3,4,5,255,2^32,u64::MAX} x lengths 0..44 x 3 fillings with the required error class (Version{expected:3,got}, Format{size}); non-trivial = every evaluation; distinct = by construction / fingerprint",
+            rule: "one evaluation = one file opened in one container and put through the query battery (len/is_empty, full stream, a depth-first enumeration through the low-level node interface root()/node()/transitions()/transition(i)/transition_addr(i)/find_input(all 256 bytes) whose accessors must agree with each other and with the content, verify() = Ok for v3 / ChecksumMissing for v1-2, lookups of keys/prefixes/extensions and every single byte from the root, 4 random ranges, Subsequence and DFA searches) against the model the file encodes; files: ~8000 (thorough 40000) models x versions {1,2,3} x 2 output distributions and node-form policies produced by the harness' independent reference encoder (self-checked by the independent decoder; includes empty map, only-empty-key, files of 32..35 bytes, nodes with >32 transitions with and without index, dense product sets with far more keys than bytes), cross-version union/intersection/difference together with the crate's own output, 40 committed golden files (v1/v2/v3 reference encodings and v3 crate output with sidecar content), corpora in all versions; containers rotate over Vec, &[u8], Cow::Borrowed/Owned, Box<[u8]>, Arc newtype, memory map, map_data, Map/Set wrappers; plus a header sweep: version field in {0,1,2,3,4,5,255,2^32,u64::MAX} x lengths 0..44 x 3 fillings with the required error class (Version{expected:3,got}, Format{size}); non-trivial = every evaluation; distinct = by construction / fingerprint",
             assumptions: vec!["inputs that are both of unsupported version and shorter than any well-formed file may report either Format or Version".into(), "reference encoder output is validated by the reference decoder before use; a disagreement aborts the run as a harness error".into()],
             floors: vec![
                 ("files:version-1", 1000),
